@@ -196,4 +196,31 @@ Section Oracles.
       + destruct ((r_version rd =? 2) && negb (hv =? 1)); inversion Eo; discriminate.
       + inversion Eo; subst e0. intros X. inversion X; subst e. eapply read_header_not_fuel. exact Eh.
   Qed.
+
+  (* ---- io.EOF as Inspect's error never comes from the section walk ------------------------ *)
+  Lemma insp_loop_not_eof v o roots : forall fuel s a, insp_loop hok fuel v o roots s a <> Err EEof.
+  Proof.
+    induction fuel as [|f IH]; intros s a; cbn [insp_loop]; [discriminate|].
+    destruct (read_uv s) as [l rest n| | | |]; try discriminate.
+    destruct ((l =? 0) && o_zeof o); [discriminate|]. destruct (o_maxs o <? l); [discriminate|].
+    destruct (cid_from_reader rest) as [cn c p after| |k]; try discriminate.
+    destruct (l <? cn); [discriminate|].
+    destruct v; [|apply IH].
+    destruct (blen after <? l - cn); [discriminate|].
+    destruct (verify hok c p (take (l - cn) after)) as [[]|e] eqn:Ev; [apply IH|].
+    intros X. inversion X; subst e. eapply verify_not_eof. exact Ev.
+  Qed.
+
+  Theorem inspect_eof_origin o rd file v :
+    inspect hok hdrdec o rd file v = Err EEof ->
+    read_header hdrdec (o_maxh o) (data_window rd file) = Err EEof \/ index_codec rd file = Err EEof.
+  Proof.
+    unfold inspect.
+    destruct (read_header hdrdec (o_maxh o) (data_window rd file)) as [[[[roots hv] rest] u]|e].
+    - destruct ((r_version rd =? 2) && negb (hv =? 1)); [discriminate|].
+      pose proof (insp_loop_not_eof v o roots (S (length rest)) rest (iacc0 roots)) as Hl.
+      destruct (insp_loop hok (S (length rest)) v o roots rest (iacc0 roots)) as [a|e]; [|congruence].
+      destruct (index_codec rd file) as [c|e]; [discriminate|]. intros H. right. congruence.
+    - intros H. left. congruence.
+  Qed.
 End Oracles.
